@@ -738,6 +738,9 @@ def _stage_barriers(tr):
 def mon_c07(spec, run):
     bad = []
     tr = run.trace
+    k2 = next((i for i, e in enumerate(tr) if e["k"] == "attempt2"), None)
+    if k2 is not None:
+        tr = tr[k2:]          # an earlier, failed attempt on the same object is not judged here
     rets = api_rets(tr, "initialize")
     if not api_calls(tr, "initialize"):
         return bad
